@@ -47,3 +47,98 @@ neutral("c17-rename-local", ["C17"], "builtins.py",
         "        async for elem in item_iter:\n            if not elem:\n                return False\n")
 neutral("c17-extra-stdlib-import", ["C17"], "heapq.py",
         "import heapq as _heapq\n", "import heapq as _heapq\nimport operator as _operator\n")
+
+# --------------------------------------------------------------------------- C04
+SCOPED_ENUM_OLD = ("    count = start\n    async with ScopedIter(iterable) as item_iter:\n"
+                   "        async for item in item_iter:\n            yield count, item\n            count += 1\n")
+mutant("c04-enumerate-no-scope", "C04", "builtins.py", SCOPED_ENUM_OLD,
+       "    count = start\n    async for item in aiter(iterable):\n        yield count, item\n        count += 1\n",
+       rule="R04.1", unit="builtins.enumerate")
+mutant("c04-sum-unfix", "C04", "builtins.py",
+       "    async with ScopedIter(iterable) as item_iter:\n        async for item in item_iter:\n            total += item\n",
+       "    async for item in aiter(iterable):\n        total += item\n",
+       rule="R04.1", unit="builtins.sum")
+mutant("c04-zip-finally-partial", "C04", "builtins.py",
+       "    finally:\n        for iterator in aiters:\n",
+       "    finally:\n        for iterator in aiters[1:]:\n",
+       rule="R04.2", unit="builtins.zip")
+mutant("c04-zip-no-finally", "C04", "builtins.py",
+       "    try:\n        inner = _zip_inner(aiters) if not strict else _zip_inner_strict(aiters)\n        async for items in inner:\n            yield items\n    finally:\n        for iterator in aiters:\n            try:\n                aclose = iterator.aclose  # type: ignore\n            except AttributeError:\n                pass\n            else:\n                await aclose()\n",
+       "    inner = _zip_inner(aiters) if not strict else _zip_inner_strict(aiters)\n    async for items in inner:\n        yield items\n",
+       rule="R04.1", unit="builtins.zip")
+mutant("c04-zip-close-only-if-exhausted", "C04", "builtins.py",
+       "            else:\n                await aclose()\n\n\nasync def _zip_inner(",
+       "            else:\n                if strict:\n                    await aclose()\n\n\nasync def _zip_inner(",
+       rule="R04.1", unit="builtins.zip")
+mutant("c04-merge-unfix-finally", "C04", "heapq.py",
+       "        for iterator in iterators:\n            if isinstance(iterator, ACloseable):\n                await iterator.aclose()\n",
+       "        for itr, _ in iter_heap:\n            if isinstance(itr.tail, ACloseable):\n                await itr.tail.aclose()\n",
+       rule="R04.1", unit="heapq.merge")
+mutant("c04-scopediter-skip-on-error", "C04", "_core.py",
+       "        try:\n            aclose = self._iterator.aclose()  # type: ignore\n",
+       "        if exc_type is not None:\n            return\n        try:\n            aclose = self._iterator.aclose()  # type: ignore\n",
+       rule="R04.0", unit="_core.ScopedIter.__aexit__")
+mutant("c04-scopediter-returns-true", "C04", "_core.py",
+       "        else:\n            await aclose\n",
+       "        else:\n            await aclose\n        return True\n",
+       rule="R04.0")
+mutant("c04-tee-aclose-unfix", "C04", "itertools.py",
+       "        if self._buffers:\n            self._buffers.clear()\n            if isinstance(self._iterator, ACloseable):\n                await self._iterator.aclose()\n",
+       "",
+       rule="R04.3", unit="itertools.Tee.aclose")
+mutant("c04-groupby-unfix", "C04", "itertools.py",
+       "        self._current_value = self._sentinel\n        self.current_group = None\n",
+       "        self._current_value = self._sentinel\n",
+       rule="R04.4", unit="itertools._GroupByState.aclose")
+mutant("c04-groupby-state-no-close", "C04", "itertools.py",
+       "        if isinstance(self._iterator, ACloseable):\n            await self._iterator.aclose()\n\n\nclass _Grouper",
+       "        return\n\n\nclass _Grouper",
+       rule="R04.3")
+mutant("c04-chain-aclose-skips-owned", "C04", "itertools.py",
+       "        for iterable in self._owned_iterators:\n            await iterable.aclose()\n        await self._iterator.aclose()\n",
+       "        await self._iterator.aclose()\n",
+       rule="R04.3", unit="itertools.chain.aclose")
+mutant("c04-tee-peer-always-close", "C04", "itertools.py",
+       "        if not peers and isinstance(iterator, ACloseable):\n",
+       "        if isinstance(iterator, ACloseable):\n",
+       rule="R04.5", unit="itertools.tee_peer")
+mutant("c04-tee-peer-never-close", "C04", "itertools.py",
+       "        if not peers and isinstance(iterator, ACloseable):\n            await iterator.aclose()\n",
+       "        pass\n",
+       rule="R04.5", unit="itertools.tee_peer")
+mutant("c04-tee-peer-keeps-buffer", "C04", "itertools.py",
+       "            if peer_buffer is buffer:\n                peers.pop(idx)\n                break\n",
+       "            if peer_buffer is buffer:\n                break\n",
+       rule="R04.5", unit="itertools.tee_peer")
+mutant("c04-map-unscoped", "C04", "builtins.py",
+       "    async with ScopedIter(zip(*iterable)) as args_iter:\n        async for args in args_iter:\n            result = function(*args)\n            yield await result\n",
+       "    async for args in zip(*iterable):\n        result = function(*args)\n        yield await result\n",
+       rule="R04.1", unit="builtins.map")
+mutant("c04-compress-selectors-unscoped", "C04", "itertools.py",
+       "    async with ScopedIter(data) as data_iter, ScopedIter(selectors) as selectors_iter:\n        async for item, keep in zip(data_iter, selectors_iter):\n",
+       "    async with ScopedIter(data) as data_iter:\n        async for item, keep in zip(data_iter, _borrow(aiter(selectors))):\n",
+       rule="R04.1", unit="itertools.compress")
+mutant("c04-zip-longest-no-close-loop", "C04", "itertools.py",
+       "        await fill_iter.aclose()  # type: ignore\n        for iterator in async_iters:\n            if isinstance(iterator, ACloseable):\n                await iterator.aclose()\n",
+       "        await fill_iter.aclose()  # type: ignore\n",
+       rule="R04.1", unit="itertools.zip_longest")
+mutant("c04-zip-longest-pop-live", "C04", "itertools.py",
+       "                else:\n                    values.append(value)\n                    del value\n",
+       "                else:\n                    values.append(value)\n                    del value\n                    if len(values) > 99:\n                        async_iters.pop()\n",
+       rule="R04.2", unit="itertools.zip_longest")
+mutant("c04-reduce-key-before-scope", "C04", "functools.py",
+       "    async with ScopedIter(iterable) as item_iter:\n        try:\n            value = (\n                initial if initial is not __REDUCE_SENTINEL else await anext(item_iter)\n            )\n",
+       "    item_iter = aiter(iterable)\n    if True:\n        try:\n            value = (\n                initial if initial is not __REDUCE_SENTINEL else await anext(item_iter)\n            )\n",
+       rule="R04.1", unit="functools.reduce",
+       edits=[("from ._core import ScopedIter, awaitify as _awaitify, Sentinel", "from ._core import ScopedIter, aiter, awaitify as _awaitify, Sentinel"),
+              ("    async with ScopedIter(iterable) as item_iter:\n        try:\n            value = (\n                initial if initial is not __REDUCE_SENTINEL else await anext(item_iter)\n            )\n",
+               "    item_iter = aiter(iterable)\n    if True:\n        try:\n            value = (\n                initial if initial is not __REDUCE_SENTINEL else await anext(item_iter)\n            )\n")])
+neutral("c04-enumerate-k2-rewrite", ["C04", "C18", "C17"], "builtins.py", SCOPED_ENUM_OLD,
+        "    count = start\n    item_iter = aiter(iterable)\n    try:\n        async for item in item_iter:\n            yield count, item\n            count += 1\n"
+        "    finally:\n        try:\n            aclose = item_iter.aclose  # type: ignore\n        except AttributeError:\n            pass\n        else:\n            await aclose()\n")
+neutral("c04-zip-isinstance-idiom", ["C04", "C18"], "builtins.py",
+        "        for iterator in aiters:\n            try:\n                aclose = iterator.aclose  # type: ignore\n            except AttributeError:\n                pass\n            else:\n                await aclose()\n",
+        "        for iterator in aiters:\n            if hasattr(iterator, 'aclose') and isinstance(iterator, ACloseable):\n                await iterator.aclose()  # type: ignore\n",
+        edits=[("from ._typing import T, R, HK, LT, AnyIterable", "from ._typing import T, R, HK, LT, AnyIterable, ACloseable"),
+               ("        for iterator in aiters:\n            try:\n                aclose = iterator.aclose  # type: ignore\n            except AttributeError:\n                pass\n            else:\n                await aclose()\n",
+                "        for iterator in aiters:\n            if isinstance(iterator, ACloseable):\n                await iterator.aclose()  # type: ignore\n")])
